@@ -749,6 +749,10 @@ def run(P, R, tier):
     c19.link_remove(P, R, 'C14.LINK.1')
     dangling_fields(P, R)
     freed_fields(P, R)
+    rules.freed_elements_cut(P, R, 'C14.OWN.5', ('src/config.c', 'src/common.c'))
+    R.floor('C14.OWN.5', 2, 'element frees')
+    rules.iterate_while_removing(P, R, 'C14.UAF.1', ('src/config.c',))
+    R.floor('C14.UAF.1', 2, 'walks whose body may dispose the current element')
     ctype_subscripts(P, R)
     # a node moved into the live tree must not keep a pointer into the scratch tree that is about to be freed
     from . import c15, c16
